@@ -42,7 +42,8 @@ ANCHORS = ["vdb/repo_ops.py", "vdb/ondisk.py::tree._get_categories", "vdb/ondisk
            "operations/repo.py::install", "operations/repo.py::uninstall", "operations/repo.py::replace"]
 OLD_T = 1_000_000_000          # mtime of everything in a freshly built scratch tree
 FROZEN = 1_500_000_000         # what time.time() answers while the implementation runs
-PLAIN_KEYS = ["DESCRIPTION", "SLOT", "EAPI", "KEYWORDS", "RDEPEND", "USE", "IUSE", "repository"]
+PLAIN_KEYS = ["DESCRIPTION", "SLOT", "EAPI", "KEYWORDS", "RDEPEND", "USE", "IUSE", "repository",
+              "COUNTER", "PKGMANAGER"]
 KINDS = {"vinstall": "KVInstall", "vuninstall": "KVUninstall", "vreplace": "KVReplace",
          "binstall": "KBInstall", "breplace": "KBInstall", "buninstall": "KBUninstall"}
 
